@@ -147,5 +147,5 @@ MOS += [
 
 def run(tier, seed, notes):
     obls = run_mir_obligations("C11", tier, MOS, notes)
-    obls += run_kani_group("C11", tier, "lib", {"hnsw_backend.rs": "hnsw_backend_proofs.rs"}, HARNESSES, jobs=2, notes=notes)
+    obls += run_kani_group("C11", tier, "lib", {"hnsw_backend.rs": "hnsw_backend_proofs.rs", "hnsw_index.rs": "hnsw_index_proofs.rs", "simd.rs": "simd_proofs.rs"}, HARNESSES, jobs=2, notes=notes)
     return obls
